@@ -6,10 +6,12 @@ import (
 	"fmt"
 	"net"
 	"net/http"
+	"os"
 	"sort"
 	"strconv"
 	"strings"
 	"sync"
+	"syscall"
 	"time"
 
 	"github.com/gorilla/websocket"
@@ -36,6 +38,16 @@ import (
 //     forwarder goroutine is not yet parked on its unbuffered channel), then 40 ms more for
 //     receipts that should not happen, and print every socket that got it.
 //     n, t, k come from the generator's reference and only shorten waiting; outputs are observations.
+//     When `await` runs into its bound it also prints last=<k>: the number of distinct messages that came
+//     in over the most recently accepted socket to d (what a connection nobody should have made carried).
+//   - `idle ms` lets real time pass (the only op whose point is the clock: a reconnecting client that was told
+//     to stop while it sat in a back-off sleep of 1 s, 2 s, 4 s ... must not dial again when the sleep ends;
+//     the `await`s that follow say what the destinations saw meanwhile).
+//
+// Destinations whose name starts with "pt" have a TCP port of their own: while such a destination is `down`
+// NOTHING LISTENS on its port (connection refused; the port stays reserved by a bound socket that does not
+// listen), and `up` starts listening on that very port.  All other destinations share one port and, while
+// down, refuse the websocket upgrade with a 503.
 
 const rwcBarrierID = "\x00verif-barrier"
 
@@ -53,7 +65,108 @@ type rwcEnv struct {
 	conns    []*rwcConn
 	down     map[string]bool
 	accepted map[string]int
+	ports    map[string]*rwcOwnPort // destinations with a port of their own (only touched by the op goroutine)
 }
+
+// rwcOwnPort: a loopback port that is either listened on (srv) or merely held by a bound socket (fd)
+type rwcOwnPort struct {
+	port int
+	fd   int // bound, not listening; -1 when listening or lost
+	srv  *http.Server
+}
+
+func rwcBind(port int) (int, int, error) {
+	fd, err := syscall.Socket(syscall.AF_INET, syscall.SOCK_STREAM|syscall.SOCK_CLOEXEC, 0)
+	if err != nil {
+		return -1, 0, err
+	}
+	_ = syscall.SetsockoptInt(fd, syscall.SOL_SOCKET, syscall.SO_REUSEADDR, 1)
+	if err = syscall.Bind(fd, &syscall.SockaddrInet4{Port: port, Addr: [4]byte{127, 0, 0, 1}}); err != nil {
+		syscall.Close(fd)
+		return -1, 0, err
+	}
+	sa, err := syscall.Getsockname(fd)
+	if err != nil {
+		syscall.Close(fd)
+		return -1, 0, err
+	}
+	return fd, sa.(*syscall.SockaddrInet4).Port, nil
+}
+
+func rwcReserve() *rwcOwnPort {
+	fd, port, err := rwcBind(0)
+	if err != nil {
+		panic(err)
+	}
+	return &rwcOwnPort{port: port, fd: fd}
+}
+
+// listen starts accepting on the held port (false: the port could not be listened on)
+func (p *rwcOwnPort) listen() bool {
+	if p.srv != nil {
+		return true
+	}
+	var ln net.Listener
+	if p.fd >= 0 {
+		if err := syscall.Listen(p.fd, 128); err != nil {
+			return false
+		}
+		f := os.NewFile(uintptr(p.fd), "rwc-dest")
+		l, err := net.FileListener(f) // dups the descriptor
+		f.Close()
+		p.fd = -1
+		if err != nil {
+			return false
+		}
+		ln = l
+	} else {
+		// the port slipped away when it was closed (see unlisten): try to get it back
+		var err error
+		for i := 0; i < 200 && ln == nil; i++ {
+			if ln, err = net.Listen("tcp", fmt.Sprintf("127.0.0.1:%d", p.port)); err != nil {
+				ln = nil
+				time.Sleep(10 * time.Millisecond)
+			}
+		}
+		if ln == nil {
+			return false
+		}
+	}
+	p.srv = &http.Server{Handler: http.HandlerFunc(rwcHandle)}
+	go func(srv *http.Server, ln net.Listener) { _ = srv.Serve(ln) }(p.srv, ln)
+	return true
+}
+
+// unlisten closes the listener and takes hold of the port again with a socket that does not listen
+func (p *rwcOwnPort) unlisten() {
+	if p.srv == nil {
+		return
+	}
+	_ = p.srv.Close()
+	p.srv = nil
+	for i := 0; i < 2000; i++ {
+		if fd, _, err := rwcBind(p.port); err == nil {
+			p.fd = fd
+			return
+		}
+		time.Sleep(time.Millisecond)
+	}
+	p.fd = -1
+}
+
+func (p *rwcOwnPort) release() {
+	if p.srv != nil {
+		_ = p.srv.Close()
+		p.srv = nil
+	}
+	if p.fd >= 0 {
+		syscall.Close(p.fd)
+		p.fd = -1
+	}
+}
+
+// rwcOwn: does the destination (hex name) have a port of its own?  names starting with "pt"
+func rwcOwn(hexDest string) bool { return strings.HasPrefix(hexDest, "7074") }
 
 var (
 	rwcOnce   sync.Once
@@ -170,8 +283,10 @@ func rwcAtoi(s string) int {
 }
 
 // rwcIndex: 1..6 decimal digits, nothing else
-func rwcIndex(s string) (int, bool) {
-	if len(s) == 0 || len(s) > 6 {
+func rwcIndex(s string) (int, bool) { return rwcDigits(s, 6) }
+
+func rwcDigits(s string, max int) (int, bool) {
+	if len(s) == 0 || len(s) > max {
 		return 0, false
 	}
 	for _, c := range s {
@@ -195,15 +310,40 @@ func init() {
 				rwcStop()
 			}
 			rwcCaseNo++
-			env := &rwcEnv{prefix: fmt.Sprintf("/c%d/", rwcCaseNo), down: map[string]bool{}, accepted: map[string]int{}}
+			env := &rwcEnv{prefix: fmt.Sprintf("/c%d/", rwcCaseNo), down: map[string]bool{}, accepted: map[string]int{},
+				ports: map[string]*rwcOwnPort{}}
 			rwcCurMu.Lock()
 			rwcCur = env
 			rwcCurMu.Unlock()
 			base := fmt.Sprintf("ws://127.0.0.1:%d%s", rwcPort, env.prefix)
-			url := func(hexDest string) string { return base + hexDest }
+			// the port of a destination with a port of its own: reserved at its first mention, listened on unless down
+			ownPort := func(hexDest string) *rwcOwnPort {
+				p := env.ports[hexDest]
+				if p == nil {
+					p = rwcReserve()
+					env.ports[hexDest] = p
+					env.mu.Lock()
+					dn := env.down[hexDest]
+					env.mu.Unlock()
+					if !dn {
+						p.listen()
+					}
+				}
+				return p
+			}
+			url := func(hexDest string) string {
+				if rwcOwn(hexDest) {
+					return fmt.Sprintf("ws://127.0.0.1:%d%s%s", ownPort(hexDest).port, env.prefix, hexDest)
+				}
+				return base + hexDest
+			}
 			destOf := func(name string) string {
-				if strings.HasPrefix(name, base) {
-					return strings.TrimPrefix(name, base)
+				const host = "ws://127.0.0.1:"
+				if strings.HasPrefix(name, host) {
+					rest := strings.TrimLeft(name[len(host):], "0123456789")
+					if strings.HasPrefix(rest, env.prefix) {
+						return strings.TrimPrefix(rest, env.prefix)
+					}
 				}
 				return "?" + enhex(name)
 			}
@@ -221,6 +361,9 @@ func init() {
 				env.mu.Unlock()
 				close(closed) // rwc.Hub.Run cancels every client on the way out
 				env.closeOn("", true)
+				for _, p := range env.ports {
+					p.release()
+				}
 			}
 
 			seen := map[*rwc.Client]bool{}
@@ -355,12 +498,28 @@ func init() {
 					env.mu.Lock()
 					env.down[fs[1]] = true
 					env.mu.Unlock()
+					if rwcOwn(fs[1]) {
+						ownPort(fs[1]).unlisten() // from now on nothing listens on its port
+					}
 					env.closeOn(fs[1], false)
 					return "ok"
 				case fs[0] == "up" && len(fs) == 2 && rwcIsHex(fs[1]):
 					env.mu.Lock()
 					delete(env.down, fs[1])
 					env.mu.Unlock()
+					if rwcOwn(fs[1]) && !ownPort(fs[1]).listen() {
+						return "port-lost" // environment failure: somebody else took the port while it was closed
+					}
+					return "ok"
+				case fs[0] == "idle" && len(fs) == 2:
+					ms, ok := rwcDigits(fs[1], 5)
+					if !ok {
+						return "bad-op"
+					}
+					if ms > 20000 {
+						ms = 20000
+					}
+					time.Sleep(time.Duration(ms) * time.Millisecond)
 					return "ok"
 				case fs[0] == "drop" && len(fs) == 2 && rwcIsHex(fs[1]):
 					env.closeOn(fs[1], false)
@@ -382,6 +541,18 @@ func init() {
 						if (gn == n && gt == t) || !time.Now().Before(deadline) {
 							if !(gn == n && gt == t) {
 								late = true
+								// what did the most recent socket to this destination carry?
+								env.mu.Lock()
+								last := -1
+								for _, c := range env.conns {
+									if c.dest == fs[1] {
+										last = len(c.recv)
+									}
+								}
+								env.mu.Unlock()
+								if last >= 0 {
+									return fmt.Sprintf("n=%d t=%d last=%d", gn, gt, last)
+								}
 							}
 							return fmt.Sprintf("n=%d t=%d", gn, gt)
 						}
